@@ -1,4 +1,4 @@
-CONSTANTS MaxStmts = 4 MaxLen = 24 Radices = {2, 8, 10, 16, 36}
+CONSTANTS MaxStmts = 3 MaxLen = 17 Radices = {2, 8, 10, 16, 36}
 SPECIFICATION Spec
 INVARIANTS RowsFaithful FirstRowAddr EmissionInImage InfoJustified RowFits
 CHECK_DEADLOCK FALSE
